@@ -254,7 +254,7 @@ impl Check for C16 {
     }
     fn rule(&self) -> String {
         "programs of 1-3 phases x 1-6 steps run by a sender session D (40 %: also a second sender D2 re-using D's send ids, no cancels) against a receiver R: <send> with delay 10-400 ms (spellings Nms, NMS, 0.Ns, .NS, N.NNNs, fractional ms; 10 % long delays 1m..1d), given by delay / delayexpr literal / delayexpr variable; id none / unique / shared with an earlier send / idlocation; target other session or own queue; <param v> whose variable is incremented by later steps; <cancel> by sendid / sendidexpr of an earlier send; phases started by the host 0-210 ms apart; 30 %: D is driven into its final state after a phase; 50 %: lock jitter; 20 %: senders use the ECMAScript data model. \
-         Every send and cancel is bracketed by time-stamped marks (sb/sa, cb/ca); receivers mark name, payload, time. Invariants: never processed before sb + d (100 us clock tolerance); never twice; payload = value of v when the send executed; a send cancelled >= 8 ms before sb + d (same session, same id) is never processed; a send whose sa + d is >= 40 ms before the sender's termination / after no cancel is processed (waiting up to 4 s past the last due time); a send due >= 40 ms after the sender's thread ended is never processed; two sends to one receiver with sa1 + d1 + margin < sb2 + d2 (margin 3 ms same sender, 40 ms different senders) are processed in that order; D's cancels never affect D2. \
+         Every send and cancel is bracketed by time-stamped marks (sb/sa, cb/ca); receivers mark name, payload, time. Invariants: never processed before sb + d (100 us clock tolerance); never twice; payload = value of v when the send executed; a send cancelled >= 8 ms before sb + d (same session, same id) is never processed; a send whose sa + d is >= 150 ms before the sender's termination / after no cancel is processed (waiting up to 4 s past the last due time); a send due >= 40 ms after the sender's thread ended is never processed; two sends of one sender to one receiver with sa1 + d1 + 3 ms < sb2 + d2 are processed in that order (two senders' timer threads are not ordered against each other); D's cancels never affect D2. \
          Non-trivial = a cancel that must suppress a send, or two sends of one sender whose due order is the reverse of their send order, or a termination that must discard a send; distinct = hash of the program."
             .into()
     }
@@ -342,7 +342,7 @@ impl Check for C16 {
         let want_d = count_expected(&sc.d, d_phases_run);
         let want_d2 = sc.d2.as_ref().map(|p| count_expected(p, p.phases.len())).unwrap_or(0);
         let d2_phases = sc.d2.as_ref().map(|p| p.phases.len()).unwrap_or(0);
-        let all_run = scen.wait_until(Duration::from_secs(10), |l| l.count(d_id, "pe") >= d_phases_run && d2_id.map(|i| l.count(i, "pe") >= d2_phases).unwrap_or(true));
+        let all_run = scen.wait_progress(Duration::from_secs(10), |l| l.count(d_id, "pe") >= d_phases_run && d2_id.map(|i| l.count(i, "pe") >= d2_phases).unwrap_or(true));
         let describe = || format!("D {:?} | D2 {:?} | offsets {:?} terminate {:?} jitter {} datamodel {}", sc.d.phases, sc.d2.as_ref().map(|p| &p.phases), sc.offsets, sc.terminate_after, sc.jitter, if sc.ecma { "ecmascript" } else { "rfsm-expression" });
         let hash = hash_str(&describe());
         let finish = |scen: &mut Scen| {
@@ -440,10 +440,11 @@ impl Check for C16 {
                             if due_lo > tj + margin_term {
                                 e = Expect::MustNot;
                                 why = "sender terminated before the due time".into();
-                            } else if due_hi + margin_term >= tt {
+                            } else if due_hi + Duration::from_millis(150) >= tt {
+                                // (a starved timer thread may not have fired yet when the session ends)
                                 e = Expect::Either;
                             }
-                        } else if due_hi + margin_term >= tt {
+                        } else if due_hi + Duration::from_millis(150) >= tt {
                             e = Expect::Either;
                         }
                     }
@@ -468,7 +469,7 @@ impl Check for C16 {
             }
         }
         let musts: Vec<usize> = (0..obs.len()).filter(|i| expect[*i] == Expect::Must).collect();
-        let all_there = scen.wait_until(Duration::from_secs(4), |l| musts.iter().all(|i| processed(l, &obs[*i]) >= 1));
+        let all_there = scen.wait_progress(Duration::from_secs(4), |l| musts.iter().all(|i| processed(l, &obs[*i]) >= 1));
         // grace period for things that must not arrive
         std::thread::sleep(Duration::from_millis(60));
         let (ended, panics) = finish(&mut scen);
@@ -523,7 +524,12 @@ impl Check for C16 {
                 if receiver_of(oa) != receiver_of(ob) {
                     continue;
                 }
-                let margin = if oa.sender == ob.sender { Duration::from_millis(3) } else { Duration::from_millis(40) };
+                // one timer thread per session delivers in due order; two sessions' timer threads are only
+                // ordered by the OS scheduler, which a loaded machine delays arbitrarily: not judged
+                if oa.sender != ob.sender {
+                    continue;
+                }
+                let margin = Duration::from_millis(3);
                 if oa.sa + dur(oa.item.ms) + margin < ob.sb + dur(ob.item.ms) {
                     if oa.sender == ob.sender && oa.item.k > ob.item.k {
                         reversed_pairs += 1;
